@@ -3,6 +3,7 @@ package props
 import (
 	"go/token"
 	"strings"
+	"wpverif/internal/prov"
 
 	"golang.org/x/tools/go/ssa"
 
@@ -28,15 +29,33 @@ func checkC11(e *Env) {
 
 	ets := e.fn("internal/cbor.(*Encoder).EncodeTextString")
 	e.requireGates("GATE", ets, o, noCfg,
-		gate.CallBool("T.utf8", "utf8.Valid", true, "conv(param:s)"),
+		either("T.utf8", "the text is valid UTF-8", gate.CallBool("", "utf8.Valid", true, "conv(param:s)"), gate.CallBool("", "utf8.ValidString", true, "param:s")),
 		gate.CallOK("T.bytes", "(*cbor.Encoder).encodeBytes", "param:e", "const:96", "conv(param:s)"))
 	ei := e.fn("internal/cbor.(*Encoder).EncodeInt")
+	// the negated value is -1-n, written uint64(-n)-1 or uint64(^n) (two's complement)
 	e.requireGates("GATE", ei, o, noCfg,
 		either("I.sign", "non-negative under type 0, negative as -1-n under type 1",
 			gate.CallOK("", "(*cbor.Encoder).encodeTypedUint", "param:e", "const:0", "conv(param:n)"),
-			gate.CallOK("", "(*cbor.Encoder).encodeTypedUint", "param:e", "const:32", "(conv(-param:n) - const:1)")))
-	e.dominatedByGates("GATE", ei, noCfg, "(*cbor.Encoder).encodeTypedUint", []string{"param:e", "const:0"}, gate.Cmp("I.nonneg", "param:n", token.GEQ, "const:0"))
-	e.dominatedByGates("GATE", ei, noCfg, "(*cbor.Encoder).encodeTypedUint", []string{"param:e", "const:32"}, gate.Cmp("I.neg", "param:n", token.LSS, "const:0"))
+			gate.CallOK("", "(*cbor.Encoder).EncodeUint", "param:e", "conv(param:n)"),
+			gate.CallOK("", "(*cbor.Encoder).encodeTypedUint", "param:e", "const:32", "{(conv(-param:n) - const:1)|conv(^param:n)}")))
+	isCallTo := func(in ssa.Instruction, callee string, args ...string) bool {
+		c, ok := in.(*ssa.Call)
+		if !ok || prov.CalleeName(&c.Call) != callee {
+			return false
+		}
+		for i, a := range args {
+			if i >= len(c.Call.Args) || !prov.Match(a, prov.Of(c.Call.Args[i])) {
+				return false
+			}
+		}
+		return true
+	}
+	e.gatesBefore("GATE", ei, noCfg, "emit-non-negative", func(in ssa.Instruction) bool {
+		return isCallTo(in, "(*cbor.Encoder).encodeTypedUint", "param:e", "const:0") || isCallTo(in, "(*cbor.Encoder).EncodeUint", "param:e")
+	}, gate.Cmp("I.nonneg", "param:n", token.GEQ, "const:0"))
+	e.gatesBefore("GATE", ei, noCfg, "emit-negative", func(in ssa.Instruction) bool {
+		return isCallTo(in, "(*cbor.Encoder).encodeTypedUint", "param:e", "const:32")
+	}, gate.Cmp("I.neg", "param:n", token.LSS, "const:0"))
 	for _, t := range []struct{ fn, call, typ, arg string }{
 		{"internal/cbor.(*Encoder).EncodeUint", "(*cbor.Encoder).encodeTypedUint", "const:0", "param:n"},
 		{"internal/cbor.(*Encoder).EncodeArrayHeader", "(*cbor.Encoder).encodeTypedUint", "const:128", "conv(param:n)"},
@@ -125,7 +144,7 @@ func encodeMapObligations(e *Env) {
 	e.callOrder("ORDER", "copy-before-sort", em, gate.CallInstr("", "builtin:copy", tEntries, "param:mes"), gate.CallInstr("", "sort.Slice || sort.SliceStable", tEntries, "*"), "the entries are copied before they are sorted")
 	cmp := e.fn("internal/cbor.(*Encoder).EncodeMap$1")
 	e.requireResult("RESULT", cmp, gate.Outcome{Kind: gate.AnyReturn}, 0,
-		"(call:bytes.Compare(call:(*cbor.MapEntryEncoder).KeyBytes(free:entries[param:i]),call:(*cbor.MapEntryEncoder).KeyBytes(free:entries[param:j])) < const:0)",
+		"(call:bytes.Compare(call:(*cbor.MapEntryEncoder).KeyBytes(free:*[param:i]),call:(*cbor.MapEntryEncoder).KeyBytes(free:*[param:j])) < const:0)",
 		"bytewise order of the encoded keys (strictly less)")
 	e.requireResult("RESULT", e.fn("internal/cbor.(*MapEntryEncoder).KeyBytes"), gate.Outcome{Kind: gate.AnyReturn}, 0,
 		"call:(*bytes.Buffer).Bytes(param:e.keyBuf)", "the encoded key buffer")
